@@ -682,8 +682,226 @@ void h_payload_err_burst(void)
   VERIF_CANARY();
 }
 
-/* ------------------------------------------------------ native replay only */
+/* ------------------------------------------- wire link (C08 <- C13 / C12)
+ * Targets with REGP_WIRE_LINK: the sink of the instance is the nondeterministic
+ * driver of stubs/endpoint_drivers.h (C17/C13: any fragmentation, 0, -EINTR,
+ * -EAGAIN, any hard error); its ghost stream state is arbitrary at the start. */
+#ifdef REGP_WIRE_LINK
 #if VERIF_IS_NATIVE
+#define RPL_FOLD(x, lo, hi) if ((x) < (lo) || (x) > (hi)) x = (lo) + (size_t)(x) % ((size_t)(hi) - (size_t)(lo) + 1u);
+#else
+#define RPL_FOLD(x, lo, hi)
+#endif
+#define RPL_SINK_GHOSTS() \
+  IN(size_t, in_snk_pos) IN(size_t, in_b) IN(size_t, in_snk_nhard) \
+  IN(uint8_t, in_snk_val) IN(int, in_snk_err) IN(int, in_snk_kind) \
+  RPL_FOLD(in_snk_pos, 0, SIZE_MAX / 2) RPL_FOLD(in_snk_kind, 0, 1) \
+  ASSUME(in_snk_pos <= SIZE_MAX / 2 && (in_snk_kind == 0 || in_snk_kind == 1)); \
+  g_snk_pos = in_snk_pos; g_b = in_b; g_snk_nhard = in_snk_nhard; \
+  g_snk_val = in_snk_val; g_snk_err = in_snk_err;
+#define RPL_STUB_SINK(snk) \
+  if (in_snk_kind == 0) octet_sink_init((snk), ep_octet_sink, EP_SNK_DRIVER); \
+  else chunk_sink_init((snk), ep_chunk_sink, EP_SNK_DRIVER);
+#endif
+
+#if defined(REGP_WIRE_LINK) && REGP_WIRE_LINK == 1
+size_t g_lp_sum[9], g_lp_pos[9];
+size_t g_lp_c;
+
+/* the glue ghosts of C13 for the list {header chunk, payload chunk} framed
+ * with the varint kind from the sink's current position (computed, not
+ * assumed: the same code runs in the native replay) */
+/* (spelt out here: a spec function that is called from harness code as well
+ * as from contract clauses is instrumented by dfcc in a way that breaks its
+ * calls from other spec functions -- "not enough arguments") */
+#define RPL_VLEN(n) ((uint64_t)(n) < (UINT64_C(1) << 7) ? 1u : (uint64_t)(n) < (UINT64_C(1) << 14) ? 2u \
+  : (uint64_t)(n) < (UINT64_C(1) << 21) ? 3u : (uint64_t)(n) < (UINT64_C(1) << 28) ? 4u \
+  : (uint64_t)(n) < (UINT64_C(1) << 35) ? 5u : (uint64_t)(n) < (UINT64_C(1) << 42) ? 6u \
+  : (uint64_t)(n) < (UINT64_C(1) << 49) ? 7u : (uint64_t)(n) < (UINT64_C(1) << 56) ? 8u \
+  : (uint64_t)(n) < (UINT64_C(1) << 63) ? 9u : 10u)
+static void rpl_lenp_glue(size_t hs, int haspl, size_t ps)
+{
+  const size_t n = hs + (haspl ? ps : 0u);
+  IN(size_t, in_lp_c)
+  g_lp_c = in_lp_c;
+  g_lp_sum[0] = 0u; g_lp_sum[1] = hs; g_lp_sum[2] = n;
+  g_lp_pos[0] = g_snk_pos + RPL_VLEN(n);
+  g_lp_pos[1] = g_lp_pos[0] + hs;
+  g_lp_pos[2] = g_lp_pos[0] + n;
+}
+
+/* E(send_memory), wire view, TCP: every instance state, header length,
+ * payload present / absent / empty, every sink driver behaviour */
+void h_send_memory_tcp_wire(void)
+{
+  RPW_INSTANCE()
+  ASSUME(in_ep == RP_EP_TCP);
+  RPL_SINK_GHOSTS()
+  RPL_STUB_SINK(&p->ep.sink)
+  IN(size_t, in_hs) IN(int, in_haspl) IN(size_t, in_ps)
+  ASSUME(in_hs == 12 || in_hs == 14 || in_hs == 16);
+  RPL_FOLD(in_ps, 0, 4096)
+  ASSUME(in_ps <= 4096);
+  IN_MEM(in_hdr, in_hs)
+  IN_MEM(in_pl, in_ps)
+  rpl_lenp_glue(in_hs, in_haspl != 0, in_ps);
+  send_memory(p, in_hdr, in_hs, in_haspl ? in_pl : NULL, in_ps);
+  VERIF_CANARY();
+}
+
+/* lemma_tx_record_lenp: every chunk list the transmit-record contract of
+ * flenp_chunks_to_sink admits (1 or 2 chunks, first 1..16 octets, read from the
+ * start, used == size), any sink driver behaviour */
+void h_lemma_tx_record_lenp(void)
+{
+  GHOST_HAVOC(); RPW_TX_HAVOC();
+  RPL_SINK_GHOSTS()
+  Sink *snk = malloc(sizeof(Sink)); ASSUME(snk != NULL);
+  RPL_STUB_SINK(snk)
+  IN(size_t, in_hs) IN(int, in_two) IN(size_t, in_ps)
+  RPL_FOLD(in_hs, 1, 16) RPL_FOLD(in_ps, 0, 4096)
+  ASSUME(in_hs >= 1 && in_hs <= 16 && in_ps <= 4096);
+  IN_MEM(in_hdr, in_hs)
+  IN_MEM(in_pl, in_ps)
+  ByteChunks *oc = malloc(sizeof(ByteChunks)); ASSUME(oc != NULL);
+  /* (fixed-size array: a symbolic-size block of structs blows the formula up) */
+  ByteBuffer *chunk = malloc(2 * sizeof(ByteBuffer)); ASSUME(chunk != NULL);
+  chunk[0].data = in_hdr; chunk[0].size = in_hs; chunk[0].used = in_hs; chunk[0].offset = 0;
+  if (in_two) { chunk[1].data = in_pl; chunk[1].size = in_ps; chunk[1].used = in_ps; chunk[1].offset = 0; }
+  oc->chunks = in_two ? 2 : 1; oc->active = 0; oc->chunk = chunk;
+  rpl_lenp_glue(in_hs, in_two != 0, in_ps);
+  rpw_lenp_recorded(LENP_VARIABLE, snk, oc);
+  VERIF_CANARY();
+}
+#endif /* REGP_WIRE_LINK == 1 */
+
+#if defined(REGP_WIRE_LINK) && REGP_WIRE_LINK == 2
+/* ----------------------------------------- wire view, serial (5.1), bounded
+ * Whole stack, nothing replaced: the real send_memory, source_from_chunks,
+ * read_from_chunks over the real chunk list, rfc1055_encode /
+ * rfc1055_encode_octet, sink_put_octet / sink_put_chunk, into the sink driver
+ * stub of C12 (stubs/rfc1055_io.h, pre-included: octet or chunk kind; a call
+ * moves one octet -- chunk kind: one or two -- or fails with any negative
+ * value).  doc/regp.txt 5.1: "SLIP as specified in RFC1055, in its classical
+ * form without start-of-frame octets": the sink receives the reference
+ * encoding of F = hdr ++ pl followed by END, and no leading END.  Stated twice:
+ *   - C12's acceptor (g_ac_*): every octet the driver receives is compared
+ *     with the streaming reference encoding of F; never "bad", closed after
+ *     exactly |F| payload octets on success, not closed on failure;
+ *   - directly: E = spec_slip_encode(F) (spec/slip.h, written from RFC 1055),
+ *     the octet received at the observed position g_sl_obs (arbitrary) is
+ *     E[g_sl_obs - q0], the count is |E| on success, a proper part on failure.
+ * Tier B: header chunk <= RPL_HSMAX, payload <= RPL_PSMAX octets (every content,
+ * SLIP special octets included, in both), loops unwound with unwinding assertions.
+ * The stub does not answer 0 / transient values here (budget 0: a transient
+ * value is turned into a hard error by the stub), as in C12. */
+#ifndef RPL_PSMAX
+#define RPL_PSMAX 2
+#endif
+/* SCALED DOWN: the header chunk has 1 .. RPL_HSMAX octets instead of 12 / 14 /
+ * 16 (send_memory and the stack below it never branch on the chunk lengths
+ * except for "exhausted"); a whole-stack run at full header length did not
+ * finish (every Source/Sink call is a function-pointer call out of a union,
+ * which symbolic execution does not resolve: 250 000 steps, 6 M variables at
+ * 12 + 4 octets).  Frames of real length rest on C12's inductive contract of
+ * rfc1055_encode and on the record view of send_memory. */
+#ifndef RPL_HSMAX
+#define RPL_HSMAX 2
+#endif
+#define RPL_FMAX (RPL_HSMAX + RPL_PSMAX)
+
+void h_send_memory_serial_wire(void)
+{
+  /* (the instance is a local object set up field by field: the memset of
+   * RPW_INSTANCE over a heap block costs the field sensitivity that keeps the
+   * function-pointer calls of this whole-stack run resolved) */
+  GHOST_HAVOC();
+  IN(int, in_mem) IN(uint16_t, in_seq)
+  ASSUME(in_mem == RP_MEMTYPE_8 || in_mem == RP_MEMTYPE_16);
+  RegP inst;
+  RegP *p = &inst;
+  p->ep.type = RP_EP_SERIAL; p->memory.type = (RPMemoryType)in_mem; p->session.sequence = in_seq;
+  IN(size_t, in_w_pos) IN(size_t, in_w_obs) IN(uint8_t, in_w_val) IN(int, in_w_kind)
+  RPL_FOLD(in_w_pos, 0, SIZE_MAX / 2) RPL_FOLD(in_w_kind, 0, 1)
+  ASSUME(in_w_pos <= SIZE_MAX / 2 && (in_w_kind == 0 || in_w_kind == 1));
+  g_sl_snk_pos = in_w_pos; g_sl_obs = in_w_obs; g_sl_snk_val = in_w_val;
+  g_sl_snk_nneg = 0; g_sl_snk_err = 0; g_sl_snk_budget = 0;
+  if (in_w_kind == 0) octet_sink_init(&p->ep.sink, sl_octet_sink, SL_SNK_DRIVER);
+  else chunk_sink_init(&p->ep.sink, sl_chunk_sink, SL_SNK_DRIVER);
+  /* RPL_HS_PIN / RPL_PS_PIN: case split over the lengths by targets (constant
+   * block sizes and loop bounds: symbolic ones cost minutes of symbolic
+   * execution); RPL_PS_PIN == -1: no payload chunk (pl == NULL) */
+#ifdef RPL_HS_PIN
+  size_t in_hs = RPL_HS_PIN;
+#else
+  IN(size_t, in_hs)
+#endif
+#ifdef RPL_PS_PIN
+  const int in_haspl = (RPL_PS_PIN) >= 0;
+  const size_t in_ps = (RPL_PS_PIN) >= 0 ? (RPL_PS_PIN) : 0;
+#else
+  IN(int, in_haspl) IN(size_t, in_ps)
+  RPL_FOLD(in_ps, 0, RPL_PSMAX)
+#endif
+#if VERIF_IS_NATIVE
+  if (in_hs < 1 || in_hs > RPL_HSMAX) in_hs = 1 + in_hs % RPL_HSMAX;
+#endif
+  ASSUME(in_hs >= 1 && in_hs <= RPL_HSMAX);
+  ASSUME(in_ps <= RPL_PSMAX);
+  IN_MEM(in_hdr, in_hs)
+  IN_MEM(in_pl, in_ps)
+  /* reference: F = hdr ++ pl, E = esc(F[0]) .. esc(F[n-1]) END */
+  const size_t n = in_hs + (in_haspl ? in_ps : 0u);
+  unsigned char *F = malloc(RPL_FMAX); ASSUME(F != NULL);
+  unsigned char *E = malloc(2 * RPL_FMAX + 1); ASSUME(E != NULL);
+  for (size_t i = 0; i < RPL_FMAX; i++)
+    F[i] = i < in_hs ? in_hdr[i] : (i < n ? in_pl[i - in_hs] : 0u);
+  const size_t elen = spec_slip_encode(F, n, E);
+  g_ac_on = 1; g_ac_pay = F; g_ac_n = n; g_ac_sof = 0; g_ac_i = 0; g_ac_s = 0; g_ac_closed = 0; g_ac_bad = 0;
+
+  const int rc = send_memory(p, in_hdr, in_hs, in_haspl ? in_pl : NULL, in_ps);
+
+  const size_t sent = (size_t)(g_sl_snk_pos - in_w_pos);
+  const size_t rel = (size_t)(in_w_obs - in_w_pos);
+  CHECK(rc <= 0, "serial: result is 0 or a negative error value");
+  CHECK(!g_ac_bad, "serial: every octet the sink received is the next octet of the RFC 1055 encoding of header ++ payload (classical form, no start-of-frame octet)");
+  CHECK(IMPLIES(rc == 0, g_ac_closed && g_ac_i == n && g_ac_s == 0), "serial: on success the frame is complete: all of header ++ payload, then END");
+  CHECK(IMPLIES(rc < 0, !g_ac_closed), "serial: a failed transmission is not a complete frame");
+  CHECK(sent <= elen, "serial: never more octets than SLIP(header ++ payload)");
+  CHECK(IMPLIES(rc == 0, sent == elen && g_sl_snk_nneg == 0), "serial: success means the whole SLIP image was accepted, without a driver failure");
+  CHECK(IMPLIES(rc < 0, rc == g_sl_snk_err && g_sl_snk_nneg == 1 && sent < elen), "serial: a sink driver error comes back unchanged, a proper initial part was sent");
+  CHECK(IMPLIES(rel < sent, g_sl_snk_val == E[rel < elen ? rel : 0]), "serial: the octets on the wire are SLIP(header ++ payload), RFC 1055 classical form");
+  CHECK(IMPLIES(!(rel < sent), g_sl_snk_val == in_w_val), "serial: nothing is sent outside the frame");
+  CHECK(elen >= n + 1 && elen <= 2 * n + 1 && E[0] != SLIP_END, "reference sanity: no leading END, length within n+1 .. 2n+1");
+  VERIF_CANARY();
+}
+#endif /* REGP_WIRE_LINK == 2 */
+
+/* ------------------------------------------------------ native replay only */
+#if VERIF_IS_NATIVE && defined(REGP_WIRE_LINK)
+/* link targets: the framing layer of the other transport is not part of the
+ * unit (and not reachable: the transport is pinned) */
+#if REGP_WIRE_LINK == 1
+int rfc1055_encode(const RFC1055Context *ctx, Source *source, Sink *sink)
+{ (void)ctx; (void)source; (void)sink; return -EIO; }
+#else
+ssize_t flenp_chunks_to_sink(const LengthPrefixKind k, Sink *sink, ByteChunks *oc)
+{ (void)k; (void)sink; (void)oc; return -EIO; }
+#endif
+ssize_t flenp_decode_source_to_sink(const LengthPrefixKind k, Source *source, Sink *sink)
+#if REGP_WIRE_LINK == 1
+;
+#else
+{ (void)k; (void)source; (void)sink; return -EIO; }
+#endif
+int rfc1055_decode(RFC1055Context *ctx, Source *source, Sink *sink)
+#if REGP_WIRE_LINK == 2
+;
+#else
+{ (void)ctx; (void)source; (void)sink; return -EIO; }
+#endif
+#endif
+#if VERIF_IS_NATIVE && !defined(REGP_WIRE_LINK)
 /* The framing entry points are replaced by ASSUMED contracts in the proofs;
  * natively they are stand-ins that implement exactly that contract (record
  * the chunk list in the ghost transmit record), so that the emitters'
